@@ -41,8 +41,9 @@ class SamplingMonitor(Monitor):
             base = PREDICATES[meta["pred"]]
             import lightworks as lw  # noqa: PLC0415
             return lambda st: bool(base(lw.State(list(st))))
-        rules = [(tuple(r.modes), tuple(r.n_photons))
-                 for r in w.pool["ps"][ref].rules]
+        # the rules the harness saw being *accepted* (creation + successful
+        # add() calls), not whatever the object currently holds
+        rules = list(meta["rules"])
 
         def acc(st):
             for modes, ns in rules:
@@ -201,6 +202,10 @@ class SamplingMonitor(Monitor):
 
     def qs_accept(self, q):
         ps = q.post_select
+        w = self.w
+        for ref, obj in w.pool["ps"].items():
+            if obj is ps and w.meta["ps"][ref]["pkind"] == "rules":
+                return self.accept_fn({"ps": ref})
         return lambda st: True if ps is None else bool(ps.validate(
             __import__("lightworks").State(list(st))))
 
